@@ -25,6 +25,14 @@ type FilterSpec struct {
 	Jwks           string   `json:"jwks"` // "static" (default) | "fetch"
 	IdpID          string   `json:"idp"`  // "" = idp "A"; "B" = a second provider (own endpoints)
 	Override       bool     `json:"override"` // configure through default_oidc_config + oidc_override instead of a plain oidc filter
+	ChainName      string   `json:"chainName"` // name of the chain in the configuration (default: the filter name; names need not be unique)
+	KeySet         string   `json:"keySet"`    // configured static key set: "" = k1+k2, "k3"
+	After          string   `json:"after"`     // a mock filter after the OIDC filter in the same chain: "" | "deny" | "allow"
+	SecretRef      string   `json:"secretRef"` // take the client secret from this Kubernetes Secret (driven by "secret" steps)
+	DiscoveryDoc   string   `json:"discoveryDoc"` // variant of the discovery document: "" | "pkcePlainOnly" | "noEndSession"
+	NoLogoutRedirect bool   `json:"noLogoutRedirect"` // logout configured without redirect_uri (taken from discovery)
+	inheritedLogoutPath string
+	InheritLogout    bool   `json:"inheritLogout"`    // override-based filter without a logout section of its own: the default's applies
 }
 
 type CfgSpec struct {
@@ -49,6 +57,7 @@ type AnsSpec struct {
 	IDLife    int    `json:"idLife"`    // seconds, default 60
 	RfNonce   string `json:"rfNonce"`   // refresh: same (default) | absent | foreign
 	KeySet    string `json:"keySet"`    // "" | "k3": switch the configured key set before answering
+	SignKey   string `json:"signKey"`   // "" = a key of the addressed filter's configured set | "k1" | "k3": sign honestly-shaped tokens with this key
 }
 
 // Directive is what a step hands to the pending gate of a check.
@@ -68,6 +77,7 @@ type Step struct {
 	Kind     string   `json:"kind"`     // app | callback | logout
 	Cookie   string   `json:"cookie"`   // none | jar | sid:<k> | forged | raw:<value>
 	CookieAs string   `json:"cookieAs"` // send the cookie under this filter's cookie name (default F)
+	Decoy    string   `json:"decoy"`    // "" | "before": a look-alike cookie (x<name>=forged) precedes the real one | "only": the value travels ONLY in a look-alike cookie
 	St       string   `json:"st"`       // callback: none | sid:<k> (state issued with k-th sid) | jar | bogus
 	Code     string   `json:"code"`     // callback: none | code:<k> | jar | bogus
 	QShape   string   `json:"qshape"`   // callback query shape
